@@ -146,3 +146,7 @@ func Visited[K comparable, V any](m map[K]V, k K) bool { return false }
 // method value such as ctl.handlePing), looking through wrappers that capture
 // one function (msg.AsyncHandler); "" otherwise.
 func HandlerName(f any) string { return "" }
+
+// FreshInIter: p points to an object allocated during the current loop
+// iteration (so it is shared with no earlier iteration).
+func FreshInIter(p any) bool { return false }
